@@ -5,7 +5,7 @@
    top-level values of the extracted file share a name (definitions in different Coq
    files must have distinct names). *)
 From Coq Require Import Extraction ExtrOcamlBasic NArith ZArith QArith Qreduction List.
-From JLS Require Import Generated CrcDefs Spec StatsQ MrbModel TmapModel BitCopyModel FsrPackModel Format Decode WriteOnce DefsModel PyramidModel SigDef.
+From JLS Require Import Generated CrcDefs Spec StatsQ MrbModel TmapModel BitCopyModel FsrPackModel Format Decode WriteOnce DefsModel PyramidModel SigDef TsModel.
 Extraction Language OCaml.
 Extraction "jlsmodel_ext"
   BinInt.Z.add BinInt.Z.opp BinInt.Z.of_N BinInt.Z.to_N BinNat.N.add BinNat.N.mul BinNat.N.of_nat BinNat.N.to_nat
@@ -37,4 +37,5 @@ Extraction "jlsmodel_ext"
   DefsModel.df_step DefsModel.df_run DefsModel.df_scan DefsModel.df_rd_sources DefsModel.df_rd_signals
   DefsModel.df_rd_signal DefsModel.df_rd_user_data DefsModel.df_op_of
   SigDef.sd_define SigDef.sd_align_fast SigDef.sd_validate SigDef.sd_defaults SigDef.sample_size SigDef.consistent_clauses
-  SigDef.consistentb SigDef.entry256b SigDef.sd_loop_args.
+  SigDef.consistentb SigDef.entry256b SigDef.sd_loop_args
+  TsModel.ts_kv_writes TsModel.ts_kv_close TsModel.ts_kv_annotations TsModel.ts_kv_utc.
